@@ -715,14 +715,15 @@ class MemorizedFunc(Logger):
         # also renders us robust to variations of the files when the
         # in-memory version of the code does not vary
         try:
-            if self.func in _FUNCTION_HASHES:
+            # A single lookup: another thread can empty the table at any time
+            # (Memory.clear).
+            known_hashes = _FUNCTION_HASHES.get(self.func)
+            if known_hashes is not None:
                 # We use as an identifier the id of the function and its
                 # hash. This is more likely to falsely change than have hash
                 # collisions, thus we are on the safe side.
                 func_hash = self._hash_func()
-                if func_hash == _FUNCTION_HASHES[self.func].get(
-                    self.store_backend.location
-                ):
+                if func_hash == known_hashes.get(self.store_backend.location):
                     return True
         except TypeError:
             # Some callables are not hashable
